@@ -6,7 +6,7 @@
 From Coq Require Import Permutation.
 From FrameModel Require Import Num.QcTac Geometry.Rect Yaml.Tree Yaml.NetlistRead
   Yaml.NetlistWrite Yaml.NetlistFacts Yaml.NetlistDerived Yaml.NetlistRoundTrip
-  Yaml.NetlistImage Yaml.NetlistDoc Yaml.NetlistAccept.
+  Yaml.NetlistImage Yaml.NetlistDoc Yaml.NetlistAccept Yaml.NetlistReadNames Yaml.NetlistReadForms.
 Open Scope Qc_scope.
 
 (* ---- derived quantities ---- *)
@@ -120,6 +120,76 @@ Theorem C05_reject_invalid_name : forall sqrt_o e t name info,
   module_at t name info -> valid_identifier name = false -> rejects (read_netlist sqrt_o e t).
 Proof. exact reject_invalid_name. Qed.
 Print Assumptions C05_reject_invalid_name.
+
+(* ---- names: every string that is not [A-Za-z_][A-Za-z0-9_]* ---- *)
+(* Strings are byte sequences (a Python str is its UTF-8 encoding; a key that is
+   no str - YAML null / true / 1e3 - is the byte 255 followed by its repr).
+   [fullmatch] is the full-match relation of a regular expression,
+   [ident_re] = Cat (Cls start_chars) (Star (Cls rest_chars)) with the two
+   classes given as the literal lists of the 53 / 63 ASCII characters
+   (Yaml/NetlistReadNames.v).  valid_identifier is exactly that full match: *)
+Theorem C05_identifier_fullmatch : forall s, valid_identifier s = true <-> fullmatch ident_re s.
+Proof. exact valid_identifier_fullmatch. Qed.
+Print Assumptions C05_identifier_fullmatch.
+
+(* ... i.e. a first character of [A-Za-z_] followed by characters of [A-Za-z0-9_] only *)
+Theorem C05_identifier_chars : forall s,
+  fullmatch ident_re s <->
+  exists c r, s = String c r /\ In c start_chars /\ all_chars (fun d => In d rest_chars) r.
+Proof. exact fullmatch_is_identifier. Qed.
+Print Assumptions C05_identifier_chars.
+
+(* one foreign character anywhere - a control character, a blank, a newline at
+   the end (which re.match with '$' would let through), any byte of a non-ASCII
+   letter or digit - and the string is no identifier *)
+Theorem C05_no_identifier_foreign_char : forall s c,
+  In c (chars_of s) -> ~ In c rest_chars -> ~ fullmatch ident_re s.
+Proof. exact foreign_char_no_identifier. Qed.
+Print Assumptions C05_no_identifier_foreign_char.
+
+Theorem C05_no_identifier_non_ascii : forall s c,
+  In c (chars_of s) -> (128 <= nat_of_ascii c)%nat -> ~ fullmatch ident_re s.
+Proof. exact non_ascii_no_identifier. Qed.
+Print Assumptions C05_no_identifier_non_ascii.
+
+Theorem C05_no_identifier_control_or_blank : forall s c,
+  In c (chars_of s) -> (nat_of_ascii c <= 32 \/ nat_of_ascii c = 127)%nat -> ~ fullmatch ident_re s.
+Proof. exact control_or_blank_no_identifier. Qed.
+Print Assumptions C05_no_identifier_control_or_blank.
+
+Theorem C05_no_identifier_trailing_newline : forall s,
+  ~ fullmatch ident_re (s ++ String "010"%char "").
+Proof. exact trailing_newline_no_identifier. Qed.
+Print Assumptions C05_no_identifier_trailing_newline.
+
+(* a module named by ANY string that is no identifier, at any position *)
+Theorem C05_reject_invalid_name_every_string : forall sqrt_o e t name info,
+  module_at t name info -> ~ fullmatch ident_re name -> rejects (read_netlist sqrt_o e t).
+Proof. exact reject_invalid_name_re. Qed.
+Print Assumptions C05_reject_invalid_name_every_string.
+
+(* a region of an area mapping named by any string that is no identifier *)
+Theorem C05_reject_invalid_area_region : forall sqrt_o e t name info d r a,
+  module_at t name info -> In (KW_AREA, YMap d) info -> In (r, a) d -> ~ fullmatch ident_re r ->
+  rejects (read_netlist sqrt_o e t).
+Proof. exact reject_invalid_area_region. Qed.
+Print Assumptions C05_reject_invalid_area_region.
+
+(* the region of a rectangle entry [x, y, w, h, region] named by any string that
+   is no identifier, or given by something that is no string *)
+Theorem C05_reject_invalid_rect_region : forall sqrt_o e t name info v x y w h s,
+  module_at t name info -> lookup KW_RECTANGLES info = Some v ->
+  rect_in v (YList [x; y; w; h; YStr s]) -> ~ fullmatch ident_re s ->
+  rejects (read_netlist sqrt_o e t).
+Proof. exact reject_invalid_rect_region. Qed.
+Print Assumptions C05_reject_invalid_rect_region.
+
+Theorem C05_reject_non_string_rect_region : forall sqrt_o e t name info v x y w h r,
+  module_at t name info -> lookup KW_RECTANGLES info = Some v ->
+  rect_in v (YList [x; y; w; h; r]) -> (forall s, r <> YStr s) ->
+  rejects (read_netlist sqrt_o e t).
+Proof. exact reject_non_string_rect_region. Qed.
+Print Assumptions C05_reject_non_string_rect_region.
 
 (* a net with fewer than two module names besides its weight *)
 Theorem C05_reject_one_pin_net : forall sqrt_o e t net,
@@ -245,3 +315,32 @@ Theorem C05_accept_rewritten : forall sqrt_o e t n,
   exists n', read_netlist sqrt_o e (NetlistWrite.write_netlist n) = Ok n'.
 Proof. exact accept_rewritten. Qed.
 Print Assumptions C05_accept_rewritten.
+
+(* ---- input forms and sessions ---- *)
+(* Netlist(x) takes a tree, a YAML text (a str containing ': ' or a line break),
+   the name of a file, an open text stream, or anything else (refused).  [yaml_load] / [file_text] stand for the
+   text layer (ruamel, the file system); nothing is assumed about them.
+   Whatever the form, a design is loaded only if read_netlist loads the tree
+   the source stands for - so every rejection theorem above holds for every
+   input form. *)
+Theorem C05_source_loaded_inv : forall sqrt_o yaml_load file_text e src n,
+  read_source sqrt_o yaml_load file_text e src = Loaded n ->
+  exists t, read_netlist sqrt_o e t = Ok n /\
+    match src with
+    | SrcTree t' => t' = t
+    | SrcStr s => exists txt, (if is_text s then Some s else file_text s) = Some txt /\
+                              yaml_load txt = Some t
+    | SrcStream txt => yaml_load txt = Some t
+    | SrcOther => False
+    end.
+Proof. exact source_loaded_inv. Qed.
+Print Assumptions C05_source_loaded_inv.
+
+(* history independence: whatever the process loaded, rejected or wrote before
+   (other designs with the same module names, the same source, a defective
+   variant), a load from an undefined epsilon gives what it gives alone *)
+Theorem C05_session_load_alone : forall sqrt_o yaml_load file_text ops src,
+  run sqrt_o yaml_load file_text (ops ++ [OpLoad src]) =
+  (run sqrt_o yaml_load file_text ops ++ [EvLoad (read_source sqrt_o yaml_load file_text None src)])%list.
+Proof. exact session_load_alone. Qed.
+Print Assumptions C05_session_load_alone.
